@@ -207,8 +207,9 @@ End Batch.
 
 (** ** val glue.
     input  = (sort shuffle prefetch limit ty seed sizes)   items are (position, size)
-    output = (batches rep)   batches = lists of item positions, rep = a second run with
-             the same seed gave the same batches *)
+    output = (batches rep obs)   batches = lists of item positions, rep = a second run with
+             the same seed gave the same batches, obs = () or ((e_0 e_1 ...)): the rng
+             decisions of the run, one entry (n p) per emitted batch (see [o_obs]) *)
 Definition item := (nat * nat)%type.
 Definition isize (x : item) : nat := snd x.
 
@@ -228,7 +229,7 @@ Definition run_with (o : oracle) (v : val) : res (list (list item)) :=
 
 Definition run_C06 (v : val) : val :=
   match run_with o_default v with
-  | Ok bs => L [batches_v bs; I 1%Z]
+  | Ok bs => L [batches_v bs; I 1%Z; L []]
   | Err OutOfFuel => L [I (-1)%Z]
   | Err BadOracle => L [I (-2)%Z]
   | Err AssertFail => L [I (-3)%Z]
@@ -245,7 +246,7 @@ Fixpoint nat_list_eqb (a b : list nat) : bool :=
   | _, _ => false
   end.
 
-Definition shape2 (out : val) : bool := match out with L [L _; I _] => true | _ => false end.
+Definition shape2 (out : val) : bool := match out with L [L _; I _; L _] => true | _ => false end.
 
 (** items of a batch given as positions; an unknown position becomes a huge item so
     that no clause can pass by accident *)
@@ -319,6 +320,90 @@ Fixpoint replay (sort shuffle : bool) (L P : nat) (ty : limit_type) (fuel t : na
     end
   end.
 
+(** ** Exact correspondence given the seed.  The harness draws from its own
+    ChaCha8Rng::seed_from_u64(seed) in lock-step with the calls of next(): per emitted
+    batch an entry (n p): shuffle mode: n = buffer length at shuffle time (items pulled
+    so far - items emitted so far, both observed), p = the selection sequence of
+    shuffle() on n elements; sort+shuffle: n = number of sub-sequences, p = [index drawn]
+    (n = 0: no draw).  The oracle built from it answers only at the recorded argument:
+    any other question is out of range (=> BadOracle), so an exact run certifies that
+    the model's own buffer length / number of sub-sequences is the one the draws were
+    made for, at every call. *)
+Definition obs := list (nat * list nat).
+Definition o_obs (orc : obs) : oracle :=
+  {| shuf := fun t n => match nth_error orc t with
+                        | Some (n', p) => if Nat.eqb n n' then p else [n]
+                        | None => [n]
+                        end;
+     pick := fun t m => match nth_error orc t with
+                        | Some (n', p) => if Nat.eqb m n' then hd m p else m
+                        | None => m
+                        end |}.
+Definition v_entry (e : val) : nat * list nat := (v_nat (v_nth 0 e), v_list v_nat (v_nth 1 e)).
+Definition v_obs (v : val) : option obs := v_opt (v_list v_entry) v.
+
+Fixpoint nat_ll_eqb (a b : list (list nat)) : bool :=
+  match a, b with
+  | [], [] => true
+  | x :: a', y :: b' => nat_list_eqb x y && nat_ll_eqb a' b'
+  | _, _ => false
+  end.
+
+(** the model, run with the observed decisions, emits the implementation's batches *)
+Definition exact_ok (v i : val) : bool :=
+  match v_obs (v_nth 2 i) with
+  | Some orc => match run_with (o_obs orc) v with
+                | Ok bs => nat_ll_eqb (map (map fst) bs) (v_batches (v_nth 0 i))
+                | Err _ => false
+                end
+  | None => false
+  end.
+
+(** ** One oracle for the whole run.  [sanitize] keeps every in-range answer and replaces
+    an out-of-range one by the default (identity selection sequence / index 0); [glue]
+    answers call t with the t-th oracle of a list; [replay_os] is the list of the
+    oracles [replay] reconstructs, call by call. *)
+Definition sanitize (o : oracle) : oracle :=
+  {| shuf := fun t n => if lehmer_okb (shuf o t n) n then shuf o t n else repeat 0 n;
+     pick := fun t m => if pick o t m <? m then pick o t m else 0 |}.
+Definition glue (os : list oracle) : oracle :=
+  {| shuf := fun t n => shuf (nth t os o_default) t n;
+     pick := fun t m => pick (nth t os o_default) t m |}.
+Fixpoint replay_os (sort shuffle : bool) (L P : nat) (ty : limit_type) (fuel t : nat)
+         (rest buf : list item) (impl : list (list nat)) : list oracle :=
+  match fuel with
+  | O => []
+  | S f =>
+    let o := match impl with b :: _ => oracle_for sort shuffle L P ty rest buf b | [] => o_default end in
+    o :: match build_batch isize sort shuffle L P ty o t rest buf, impl with
+         | BOk (Some _) rest' buf', _ :: impl' => replay_os sort shuffle L P ty f (S t) rest' buf' impl'
+         | _, _ => []
+         end
+  end.
+Definition glued_oracle (v i : val) : oracle :=
+  let items := v_items v in
+  sanitize (glue (replay_os (v_bool (v_nth 0 v)) (v_bool (v_nth 1 v))
+                            (Nat.max (v_nat (v_nth 3 v)) 1) (Nat.max (v_nat (v_nth 2 v)) 1)
+                            (v_ty (v_nth 4 v)) (length items + 2) 0 items [] (v_batches (v_nth 0 i)))).
+
+(** what one call of build_batch asks the oracle: [shuf o t (shuf_arg ..)] in shuffle
+    mode, [pick o t (pick_arg ..)] in sort+shuffle mode *)
+Section Args.
+Context {A : Type} (size : A -> nat).
+Definition shuf_arg (L P : nat) (ty : limit_type) (rest buf : list A) : nat :=
+  length (fst (fill size ty (L * P) (lim_from size buf) buf rest)).
+Definition pick_arg (L P : nat) (ty : limit_type) (rest buf : list A) : nat :=
+  let sb := sort_by size (fst (fill size ty (L * P) (lim_from size buf) buf rest)) in
+  match find_subseq (fun s e => limit size ty (slice sb s e)) L (length sb) with
+  | Some subs => length subs
+  | None => 0
+  end.
+End Args.
+
+(** correspondence: both lines.  Relational: the replay accepts the batch sequence (some
+    in-range oracle explains it); exact: with the decisions drawn from the seed the model
+    emits exactly this batch sequence (shuffling modes), or the outputs are equal
+    (deterministic modes). *)
 Definition agree_C06 (v m i : val) : bool :=
   let sort := v_bool (v_nth 0 v) in
   let shuffle := v_bool (v_nth 1 v) in
@@ -326,4 +411,4 @@ Definition agree_C06 (v m i : val) : bool :=
   shape2 i && v_bool (v_nth 1 i)
   && replay sort shuffle (Nat.max (v_nat (v_nth 3 v)) 1) (Nat.max (v_nat (v_nth 2 v)) 1)
             (v_ty (v_nth 4 v)) (length items + 2) 0 items [] (v_batches (v_nth 0 i))
-  && (if shuffle then true else val_eqb m i).
+  && (if shuffle then exact_ok v i else val_eqb m i).
